@@ -32,7 +32,8 @@ def run(ctx):
         n2, _, rej2 = core.validate_cases(ctx, "pacer", "PacerTrace", "PacerTraceExact.cfg", None, cases=const, nshards=core.NCPU, prefix="x", max_reject=1)
         for start, lines, off in rej2[:3]:
             ctx.drift.append("constant pacer differs from the transcription of Pacer.tla at " + signature(lines, off))
-    apalache(ctx)
+    if not ctx.violations:       # a rejected trace is the verdict; the arithmetic cross-check is only run on accepted behaviour
+        apalache(ctx)
     summ = json.load(open(os.path.join(out, "c01.summary.json")))
     ctx.coverage.update({
         "traces_validated_against_impl": n, "trace_events": nev, "closed_loop_runs": summ["runs"], "consultations": summ["consultations"],
